@@ -50,6 +50,8 @@ type PodAllocation struct {
 }
 
 func (n *NodeAllocation) GetAllNUMANodeStatus(numaNodes int) []extension.NumaNodeStatus {
+	n.lock.RLock()
+	defer n.lock.RUnlock()
 	status := make([]extension.NumaNodeStatus, 0, numaNodes)
 	for i := 0; i < numaNodes; i++ {
 		status = append(status, n.NUMANodeSharedStatus(i))
